@@ -262,6 +262,10 @@ def build_templates():
             TT["uf:" + n] = T((lambda uf: lambda A, p: uf(A["x"]))(uf), ("x",), cat="ufunc")
             if uf.nout == 1:
                 TT["ufo:" + n] = T((lambda uf: lambda A, p: uf(A["x"], out=A["o"]))(uf), ("x", "o"), "o", "uf:" + n, "ufunc_out")
+                TT["ufot:" + n] = T((lambda uf: lambda A, p: uf(A["x"], out=(A["o"],)))(uf), ("x", "o"), "o", "uf:" + n, "ufunc_out")
+            elif uf.nout == 2:
+                # modf / frexp: the first output given, the second left to NumPy
+                TT["ufo2:" + n] = T((lambda uf: lambda A, p: uf(A["x"], out=(A["o"], None)))(uf), ("x", "o"), "o", None, "ufunc_out")
         elif uf.nin == 2:
             TT["uf:" + n] = T((lambda uf: lambda A, p: uf(A["x"], A["y"]))(uf), ("x", "y"), cat="ufunc")
             if uf.nout == 1 and uf.signature is None:
@@ -274,6 +278,20 @@ def build_templates():
                                     "ufr:" + n, "ufunc_out")
                 TT["ufat:" + n] = T((lambda uf: lambda A, p: uf.at(A["x"], p["idx"], A["y"]))(uf), ("x", "y"), "x",
                                     None, "ufunc_at", ("idx",))
+                # keyword forms of the same calls: out= as a tuple, dtype=, casting=, reductions with axis / keepdims,
+                # accumulate with out=, reduceat
+                TT["ufot:" + n] = T((lambda uf: lambda A, p: uf(A["x"], A["y"], out=(A["o"],)))(uf), ("x", "y", "o"), "o",
+                                    "uf:" + n, "ufunc_out")
+                TT["ufd:" + n] = T((lambda uf: lambda A, p: uf(A["x"], A["y"], dtype="float64", casting="unsafe"))(uf), ("x", "y"),
+                                   cat="ufunc")
+                TT["ufrk:" + n] = T((lambda uf: lambda A, p: uf.reduce(A["x"], axis=0, keepdims=True))(uf), ("x",), cat="ufunc_red")
+                TT["ufao:" + n] = T((lambda uf: lambda A, p: _accumulate_out(uf, A))(uf), ("x", "o"), "o",
+                                    "ufa:" + n, "ufunc_out")
+                TT["ufra:" + n] = T((lambda uf: lambda A, p: uf.reduceat(A["x"], [0]))(uf), ("x",), cat="ufunc_red")
+            elif uf.nout == 2:
+                # two outputs (divmod): the first one given, the second left to NumPy
+                TT["ufo2:" + n] = T((lambda uf: lambda A, p: uf(A["x"], A["y"], out=(A["o"], None)))(uf), ("x", "y", "o"), "o",
+                                    None, "ufunc_out")
     # out= together with where=: the elements the mask does not select keep the numbers they had
     def _mask(o):
         m = np.zeros(np.shape(o), dtype=bool)
@@ -573,6 +591,15 @@ PARAM_FAULTS = {"u": ["unknown_unit", "absent_symbol", "dim_mismatch_u", "garbag
                 "e": ["fractional_exp", "zero_exp", "str_exp"],
                 "c": [], "idx": ["idx_out_of_range"]}
 ENV_FAULTS = ["warn_error"]
+
+
+def _accumulate_out(uf, A):
+    # NumPy 2.5 does not validate the shape of out= in ufunc.accumulate: a mis-shaped out is written out of bounds
+    # (bare `np.add.accumulate(np.arange(3.), out=np.zeros(1))` kills the interpreter), so only a well-shaped out
+    # is ever passed
+    if np.shape(A["o"]) != np.shape(A["x"]) or np.ndim(A["x"]) == 0:
+        raise rw.Skip
+    return uf.accumulate(A["x"], out=A["o"])
 
 
 def grid():
